@@ -124,4 +124,12 @@ PROPS = {
              "destination default / mem.FS / OpenFile+Chmod+Mkdir only / os.FS in a temp dir; unpacked tree vs the logical tree computed by the harness; distinct = distinct case text",
         level_text="TODO", level_note="TODO", assumptions=[],
     ),
+    "C13": dict(
+        imports="Base.Path Tar.Unpack Tar.PubSub", check="C13_pubsub_check", ctype="C13_pubsub_case",
+        show="ptrace pinit (fst c)", n=dict(quick=260, thorough=3000), chunk=500,
+        rule="pubsub scripts (wait/emit/cancel over 2 keys with real goroutines, blocked/returned state checked after every step) and bufferPool bounds through the verif shim; "
+             "end to end: 6 archives streamed block by block through a controllable reader, modes clean / truncated at block k / read error at block k / caller cancellation at block k / k-th destination call fails, "
+             "destination writes split in two halves and paused, 1..8 openers started before, during and after the stream; distinct = distinct (archive, mode, point, openers)",
+        level_text="TODO", level_note="TODO", assumptions=[],
+    ),
 }
